@@ -49,16 +49,6 @@ Definition lines_of (text : str) : list str := drop_last_empty (split LF text).
 (* lines of a file opened by path *)
 Definition file_lines (text : str) : list str := lines_of (universal_newlines text).
 
-(* column names a scheme-less writer can put on the column line (pending
-   repair of MafWriter.__iadd__, `__check_column_names`: a name containing the
-   column or a line separator, or a first name starting with '#', is refused
-   with ValueError before anything is written for the record).  Not yet
-   consulted by write_file: the unrepaired writer writes such names. *)
-Definition name_sep_free (n : str) : bool := negb (existsb (fun c => N.eqb c TAB || N.eqb c CR || N.eqb c LF) n).
-Definition names_writable (names : list str) : bool :=
-  forallb name_sep_free names
-  && match names with n0 :: _ => negb (startswith n0 [HASH]) | [] => true end.
-
 Section FileIO.
   Context {C W : Type}.
   Variable sem : colsem C W.
